@@ -60,6 +60,16 @@ func genPoolTape(r *Rand, n int) []int {
 // genVRDoc draws a document for a generic read.
 func genVRDoc(r *Rand, entry string) Doc {
 	obj := entry == "VR.ReadObject" || (entry == "VR.ReadValue" && r.Chance(1, 2))
+	if r.Chance(1, 12) {
+		if r.Chance(1, 6) {
+			return genHugeStringDoc(r)
+		}
+		b := genHomogeneousArray(r)
+		if entry == "VR.ReadObject" {
+			b = append(append([]byte(`{"v":`), b...), '}')
+		}
+		return docOf(withTrailer(r, b), "homogeneous-array")
+	}
 	switch r.Pick(8, 3, 2, 2, 1, 1, 2, 1, 2) {
 	case 8: // a bare top-level string, long enough to outgrow any small-string special case
 		if entry == "VR.ReadValue" {
@@ -182,6 +192,11 @@ func genVRHistory(r *Rand, sc *Scenario, withMutations bool) {
 			cur := sc.Docs[op.Doc].Bytes()
 			for k := r.Range(1, 3); k > 0; k-- {
 				nb, ok := succDoc(r, cur)
+				if r.Chance(1, 3) {
+					if sb, ok2 := swapSiblingsDoc(r, cur); ok2 {
+						nb, ok = sb, true
+					}
+				}
 				if !ok {
 					break
 				}
